@@ -158,9 +158,9 @@ class Run:
             return False, out[-3000:]
         return True, ''
 
-    def harness(self, engine, mode, ops, out=None, seed=0, n=0, timeout=600):
+    def harness(self, engine, mode, ops, out=None, seed=0, n=0, timeout=600, case_timeout=40):
         env = dict(VERIF_ENGINE=engine, VERIF_MODE=mode, VERIF_OPS=ops, VERIF_SEED=str(seed), VERIF_N=str(n),
-                   VERIF_TIER=self.tier, TMPDIR=os.path.join(BUILD, 'tmp'), GOMEMLIMIT='6GiB')
+                   VERIF_TIER=self.tier, TMPDIR=os.path.join(BUILD, 'tmp'), GOMEMLIMIT='6GiB', VERIF_CASE_TIMEOUT=str(case_timeout))
         os.makedirs(env['TMPDIR'], exist_ok=True)
         if out:
             env['VERIF_OUT'] = out
@@ -171,11 +171,11 @@ class Run:
             p = subprocess.run([KPMODEL, engine], stdin=fi, stdout=fo, stderr=subprocess.PIPE, timeout=900)
         return p.returncode, p.stderr.decode('utf-8', 'replace')
 
-    def run_pair(self, engine, ops_path, tag):
+    def run_pair(self, engine, ops_path, tag, case_timeout=40):
         """run implementation and model on one ops file; returns (ops, impl, model, crash_note)"""
         impl_p = os.path.join(self.tmp, f'{tag}.impl')
         model_p = os.path.join(self.tmp, f'{tag}.model')
-        rc, out = self.harness(engine, 'run', ops_path, impl_p)
+        rc, out = self.harness(engine, 'run', ops_path, impl_p, case_timeout=case_timeout)
         crash = ''
         if rc != 0:
             crash = f'harness exit {rc}: ' + out[-1500:]
@@ -216,6 +216,8 @@ class Run:
                 if pa != pb and diverged is None:
                     diverged = i
                     break
+            if getattr(proj, 'ambiguous', False):
+                stats['kinds']['(case cut at a same-instant goroutine race)'] = stats['kinds'].get('(case cut at a same-instant goroutine race)', 0) + 1
             if nontrivial:
                 stats['nontrivial_hashes'].add(hashlib.sha1('\n'.join(olines).encode()).hexdigest())
             if diverged is not None:
@@ -227,7 +229,7 @@ class Run:
         """re-run a single case; returns Divergence or None"""
         p = os.path.join(self.tmp, 'min.ops')
         open(p, 'w').write('# case min\n' + '\n'.join(olines) + '\n')
-        ops, impl, model, crash = self.run_pair(espec['engine'], p, 'min')
+        ops, impl, model, crash = self.run_pair(espec['engine'], p, 'min', case_timeout=8)
         divs, _ = self.compare(espec, ops, impl, model, crash)
         return divs[0] if divs else None
 
